@@ -259,6 +259,73 @@ def run_fault_case(args):
     return n, vs
 
 
+def run_fault_session_case(args):
+    """(c2) library-style use: the command with the permanently failing call and the follow-up commands run on
+    ONE Repository object (same slots, same caches, same event loop). After the failure the object must still
+    work: a new snapshot and clean succeed and leave a consistent repository."""
+    sc, exc_kind, N = args
+    fsdirs = H.materialize()
+    pre_name, ev = SCENARIOS[sc]
+    pre = pre_states()[pre_name]
+    actor = ev[1]
+    follow = [('snap', actor, 'F5')] + ([('clean', actor)] if pre.users[actor]['kind'] != 'shared' else [])
+    # warm-up listing by the same object first, so that the failing command is not the object's first use
+    base = H.run_session(pre, [ev], fsdirs, N=N)
+    ncalls = len(base[0][2].calls)
+    vs = []
+    n = 0
+    sig0 = {'part': 'permanent-failure-same-object', 'scenario': sc, 'exc_kind': exc_kind}
+    E = BackendGone if exc_kind == 'oserror' else BackendBroken
+    for i in range(ncalls):
+        target = base[0][2].calls[i]
+
+        def fault_for(pos, c0, i=i, target=target):
+            if pos != 0:
+                return None
+            hit = [None]
+
+            def fault(kind, name, idx):
+                if target[0] in ('list', 'clean'):
+                    if (kind, name) == tuple(target):
+                        raise E(f'{kind} {name}')
+                    return
+                if idx == c0 + i or (kind, name) == hit[0]:
+                    hit[0] = (kind, name)
+                    raise E(f'{kind} {name}')
+            return fault
+
+        n += 1
+        detail = {'scenario': sc, 'failing_call': list(target), 'index': i, 'N': N}
+        try:
+            steps = H.run_session(pre, [ev] + follow, fsdirs, N=N, fault_for=fault_for)
+        except (dsched.Hang, dsched.Horizon) as e:
+            vs.append((dict(sig0, what='hang-after-failed-command'), dict(detail, msg=str(e)[:200])))
+            continue
+        first = steps[0][2]
+        for (fev, fstate, fres) in steps[1:]:
+            if fres.exc is not None:
+                vs.append((dict(sig0, what=f'{fev[0]}-fails-after-failed-command'), dict(detail, err=repr(fres.exc)[:200],
+                                                                                        command_exc=repr(first.exc)[:120])))
+                break
+        else:
+            st = steps[-1][1]
+            if ev[0] == 'del' and first.exc is not None:
+                # the failed deletion may have removed some of its snapshots already
+                st.ledger = [e for e in st.ledger if e['loc'] in st.o]
+            if ev[0] in ('snap', 'snapargs') and first.exc is not None:
+                st.ledger = [e for e in st.ledger if e['loc'] in st.o]
+            probs = H.invariant_restorable(st, fsdirs)
+            if follow[-1][0] == 'clean':
+                area, ref = H.chunk_area(st), H.referenced_names_all(st)
+                if len(st.users) == 1 and area != ref:
+                    probs.append({'what': 'clean-leaves-garbage', 'orphans': len(area - ref), 'missing': len(ref - area)})
+                elif ref - area:
+                    probs.append({'what': 'referenced-chunk-missing', 'missing': len(ref - area)})
+            for p_ in probs[:1]:
+                vs.append((dict(sig0, what=p_['what']), dict(detail, problem=p_, command_exc=repr(first.exc)[:120])))
+    return n, vs
+
+
 # ---------------------------------------------------------------- (b) kill inside a local-backend mutation
 def _local_child(root, op, name, payload, kill_at, chunk_size):
     """Runs in a forked child: perform one Local operation, die at interposed step `kill_at`."""
@@ -663,6 +730,10 @@ def replay(case):
         return {'violations': [v[0] for v in r['viol']], 'outcome': r['outcome']}
     if 'op' in case:
         return {'violations': ['see kill_at_step; re-run ./check C03'], 'case': case}
+    if 'N' in case:
+        n, vs = run_fault_session_case((case['scenario'], 'oserror', case['N']))
+        n2, vs2 = run_fault_session_case((case['scenario'], 'other', case['N']))
+        return {'violations': [v[0] for v in vs + vs2]}
     n, vs = run_fault_case((case['scenario'], 'oserror', 2))
     n2, vs2 = run_fault_case((case['scenario'], 'other', 2))
     return {'violations': [v[0] for v in vs + vs2]}
@@ -704,6 +775,14 @@ def main():
             for sig, detail in vs:
                 chk.violation(sig, detail)
         chk.sample({'part': 'c', 'case': fcases[0]})
+        # (c2) the same Repository object goes on after the failed command
+        scases = [(sc, ek, N) for sc in SCENARIOS for ek in ('oserror', 'other') for N in ((1, 2) if t == 'quick' else (1, 2, 3))]
+        nsess = 0
+        for n, vs in common.pmap(run_fault_session_case, common.shuffled(scases, 's'), ordered=False):
+            nsess += n
+            for sig, detail in vs:
+                chk.violation(sig, detail)
+        chk.coverage['c2_same_object_fault_runs'] = nsess
         # (b)
         sizes = [0, 1, 5, 16, 17] if t == 'quick' else [0, 1, 2, 5, 15, 16, 17, 33, 64]
         lcases = []
